@@ -875,7 +875,7 @@ pub fn run(tier: &str, seed: u64, rep: &mut Report) {
         t.nodes[0].ch[2] = None;
         tree_case(&t, 1000, None, &mut net, rep);
     }
-    // witnesses of c17/offset-i64-overflow: receive time 2^63 (negate), and 2^63 + 1 with a large master time (add)
+    // former witnesses of c17/offset-i64-overflow (now plain values): receive time 2^63 (negate), and 2^63 + 1 with a large master time (add)
     run_dc_case(&[Rep { active: [true, false, false, false], dc: 2, times: [5, 0, 0, 0], rx: 1 << 63 }], 5, &none, None, &mut net, rep);
     run_dc_case(&[Rep { active: [true, false, false, false], dc: 2, times: [5, 0, 0, 0], rx: (1 << 63) + 1 }], (1 << 63) - 1, &none, None, &mut net, rep);
     // inconsistent reports (former panic witnesses, now errors): no open port at all (first / middle / last, DC or not), fork followed by four line ends,
